@@ -33,7 +33,7 @@ RULE = ("battery: batdata generator (C01 domain) x outcome vector over the comma
         "with arbitrary lower bounds, request negative/zero/positive, x outcome vector. distinct = canonical case "
         "JSON; non-trivial = >=2 set_power calls and at least one non-ok outcome or non-zero excess")
 REQUIRED_BUCKETS = ["battery", "pv", "all-ok", "some-failed", "all-failed", "outcome:range", "outcome:client",
-                    "outcome:exc", "outcome:hang", "excess-nonzero", "multi-inverter-group", "followup-request"]
+                    "outcome:exc", "outcome:hang", "excess-nonzero", "multi-inverter-group", "followup-request", "pv-concurrent-requests"]
 REQUIRED_COUNTERS = ["results_checked", "set_power_calls_observed"]
 ASSUMPTIONS = ["API boundary faked; timeouts in virtual time (5 s)"]
 
@@ -75,9 +75,17 @@ def gen(rng: Any, tier: str, i: int) -> Any:
             for j in range(n)]
     tot = sum(i["il"] for i in invs)
     power = rng.choice([tot, tot * 1.5 - 1.0, tot / 2, tot / 3 - 0.5, -1.0, 0.0, 250.0, round(rng.uniform(tot, 0), 2)])
-    return {"kind": "pv", "invs": invs, "power": power,
+    case = {"kind": "pv", "invs": invs, "power": power,
             "vectors": "exhaustive" if n <= 3 else [rng.choice(_outcome_vectors(rng, n))],
             "latency": rng.choice([0.0, 0.0, 0.3])}
+    if n >= 2 and rng.random() < 0.4:
+        # two requests for disjoint inverter subsets in flight at the same time (the distributor processes
+        # disjoint component groups concurrently)
+        cut = rng.randint(1, n - 1)
+        case["concurrent"] = {"cut": cut, "power2": rng.choice([-1.0, -250.0, sum(i["il"] for i in invs[cut:]) / 2, 0.0])}
+        case["latency"] = rng.choice([0.3, 1.0])
+        case["vectors"] = [rng.choice(_outcome_vectors(rng, n)) for _ in range(3)]
+    return case
 
 
 # ------------------------------------------------------------------ drivers
@@ -155,6 +163,26 @@ async def _pv_run(case: dict[str, Any], vec: list[str], out: dict[str, Any]) -> 
     for inv in case["invs"]:
         await api.feed(inv["id"], batdata.mk_inverter(inv["id"], {"il": inv["il"], "el": 0.0, "eu": 0.0, "iu": 0.0}, now))
     await asyncio.sleep(0.5)
+    conc = case.get("concurrent")
+    if conc:
+        ids1, ids2 = ids[: conc["cut"]], ids[conc["cut"]:]
+        req1 = Request(power=Power.from_watts(case["power"]), component_ids=set(ids1), adjust_power=True)
+        req2 = Request(power=Power.from_watts(conc["power2"]), component_ids=set(ids2), adjust_power=True)
+
+        async def second() -> None:
+            await asyncio.sleep(0.1)  # starts while the first request's API calls are still pending
+            await mgr.distribute_power(req2)
+
+        await asyncio.gather(mgr.distribute_power(req1), second())
+        results = []
+        while res_rx._q:  # noqa: SLF001
+            results.append(res_rx.consume())
+        for req, sub in ((req1, ids1), (req2, ids2)):
+            res = next((r for r in results if r.request is req), None)
+            out["rounds"].append({"result": res, "calls": [dict(c) for c in api.calls if c["id"] in sub], "request": req,
+                                  "inv_bats": {i: [i] for i in ids}, "concurrent": True})
+        await mgr.stop()
+        return
     req = Request(power=Power.from_watts(case["power"]), component_ids=set(ids), adjust_power=True)
     await mgr.distribute_power(req)
     res = res_rx.consume() if res_rx._q else None  # noqa: SLF001
@@ -249,6 +277,10 @@ def check(case: dict[str, Any], rec: Any) -> None:
         rec.bucket("all-ok" if nbad == 0 else ("all-failed" if nbad == len(vec) else "some-failed"))
         any_bad = any_bad or nbad > 0
         for k, rnd in enumerate(out["rounds"]):
+            if rnd.get("concurrent"):
+                rec.bucket("pv-concurrent-requests")
+                _judge(case, vec, rnd, rec, first=True)
+                continue
             if k > 0:
                 rec.bucket("followup-request")
             _judge(case, vec if k == 0 else ["ok"] * len(vec), rnd, rec, first=(k == 0))
